@@ -811,6 +811,31 @@ fn gen_animation(rng: &mut Rng, small: bool, binary_lossless: bool) -> (Vec<u8>,
     (file, ops)
 }
 
+/// "blend chain" family: constant translucent frames blended over each other with shifted rectangles, so that neighbouring
+/// pixels of one frame meet canvas values that are each other's blend results (d, s over d, s over (s over d), ...) -- what a
+/// memoised / run-based blend loop gets wrong
+fn gen_blend_chain(rng: &mut Rng) -> (Vec<u8>, String) {
+    let (w, h) = (rng.range(6, 16) as u32, rng.range(1, 4) as u32);
+    let s = [rng.byte(), rng.byte(), rng.byte(), *rng.pick(&[64u8, 100, 128, 190, 254, 1, 3])];
+    let d = [rng.byte(), rng.byte(), rng.byte(), *rng.pick(&[255u8, 255, 200, 128, 40, 0])];
+    let konst = |c: [u8; 4], fw: u32, fh: u32| -> Vec<u8> { (0..fw * fh).flat_map(|_| c).collect() };
+    let mut frames = vec![];
+    // frame 1: the whole canvas := d (no blending)
+    let mut r2 = rng.fork();
+    frames.push(GenFrame { x: 0, y: 0, w, h, duration: 10, blend: false, dispose: false, payload: encode_payload(r2.below(2), &konst(d, w, h), w, h, &mut r2) });
+    // frames 2..: constant s, blended, each starting two columns further left than the one before (right-aligned rectangles)
+    let steps = rng.range(2, 4) as u32;
+    for k in (0..steps).rev() {
+        let x = (2 * k).min(w - 1) & !1;
+        let fw = w - x;
+        frames.push(GenFrame { x, y: 0, w: fw, h, duration: 10, blend: true, dispose: false, payload: encode_payload(r2.below(2), &konst(s, fw, h), fw, h, &mut r2) });
+    }
+    let bg = [rng.byte(), rng.byte(), rng.byte(), 0];
+    let file = build_file(w, h, true, bg, &frames);
+    let ops: String = std::iter::repeat('F').take(frames.len() + 1).collect();
+    (file, ops)
+}
+
 // ------------------------------------------------------------------------------------------------------------------
 // composite_frame through the hook
 // ------------------------------------------------------------------------------------------------------------------
@@ -999,6 +1024,12 @@ pub fn run(tier: &str, seed: u64, outdir: &str, extra: &[String]) {
             let small = i % 3 != 0;
             let binary = i % 6 == 1;
             let (file, ops) = gen_animation(&mut r, small, binary);
+            let on_alpha = r.chance(1, 2);
+            check_animation(&file, &ops, on_alpha, &mut st, &mut out);
+        }
+        for _ in 0..(if thorough { 200 } else { 20 }) {
+            let mut r = rng.fork();
+            let (file, ops) = gen_blend_chain(&mut r);
             let on_alpha = r.chance(1, 2);
             check_animation(&file, &ops, on_alpha, &mut st, &mut out);
         }
